@@ -39,6 +39,8 @@ structure TyInfo where
   kind : Kind
   /-- `Type.String()` -/
   str : String
+  /-- `types.TypeString(t, q)` with every package qualifier `q(pkg)` written as `\x01<path>\x02` -/
+  qstr : String := ""
   /-- `Basic.Name()` / `Named.Obj().Name()` -/
   name : String := ""
   /-- `Named.Obj().Pkg()`: `none` is the nil package of universe types such as `error` -/
@@ -146,10 +148,28 @@ def isExternalPkg (p : Option String) : Bool :=
 /-- `ImportNames[path]` -/
 def importName (path : String) : Option String := (env.imports.find? (·.1 == path)).map (·.2)
 
+/-- substitute the qualifier placeholders `\x01<path>\x02.` of a `TypeString` template: the import's
+name in the setup file followed by a dot, or nothing when the package is not imported there -/
+def qualifyTemplate (imports : List (String × String)) (tpl : String) : String :=
+  let rec go (fuel : Nat) (cs : List Char) : List Char :=
+    match fuel with
+    | 0 => cs
+    | fuel + 1 =>
+      match cs with
+      | [] => []
+      | '\x01' :: rest =>
+        let path := String.ofList (takeWhileL (· != '\x02') rest)
+        let after := (dropWhileL (· != '\x02') rest).drop 1
+        match (imports.find? (·.1 == path)).map (·.2) with
+        | some n => n.toList ++ go fuel after            -- keeps the dot that follows
+        | none => go fuel (match after with | '.' :: r => r | r => r)
+      | c :: rest => c :: go fuel rest
+  String.ofList (go (tpl.length + 1) tpl.toList)
+
 /-- `ImportNames.TypeName`. `fuel` bounds pointer chains.  A named type without package (a
 universe type such as `error`) is printed by its bare name. -/
 def typeName : Nat → TyId → String
-  | 0, t => (env.ty t).str
+  | 0, t => qualifyTemplate env.imports (env.ty t).qstr
   | fuel + 1, t =>
     match env.kind t with
     | .pointer => "*" ++ typeName fuel (env.ty t).elem
@@ -161,7 +181,7 @@ def typeName : Nat → TyId → String
         match env.importName p with
         | some n => n ++ "." ++ (env.ty t).name
         | none => (env.ty t).name
-    | _ => (env.ty t).str
+    | _ => qualifyTemplate env.imports (env.ty t).qstr
 
 def typeNameF (t : TyId) : String := env.typeName (env.tys.size + 1) t
 
